@@ -120,6 +120,13 @@ Fixpoint push_params (ps : list (ident * ty)) (vs : list value) (s : istack) : o
   | _, _ => None
   end.
 
+(* arguments are evaluated first to last *)
+Fixpoint iargs_with (ev : expr -> world -> ires value) (l : list expr) (w0 : world) : ires (list value) :=
+  match l with
+  | [] => IOk [] w0
+  | a :: r => ibind (ev a w0) (fun v w1 => ibind (iargs_with ev r w1) (fun vs w2 => IOk (v :: vs) w2))
+  end.
+
 Section IRun.
 Variable fns : list fn.
 
@@ -148,13 +155,7 @@ Fixpoint ieval (fuel : nat) (e : expr) (w : world) {struct fuel} : ires value :=
     | ECond c a b =>
         ibind (ieval fuel' c w) (fun vc w1 => if truthy vc then ieval fuel' a w1 else ieval fuel' b w1)
     | ECall f args =>
-        let fix iargs (l : list expr) (w0 : world) : ires (list value) :=
-          match l with
-          | [] => IOk [] w0
-          | a :: r => ibind (ieval fuel' a w0) (fun v w1 =>
-                      ibind (iargs r w1) (fun vs w2 => IOk (v :: vs) w2))
-          end in
-        ibind (iargs args w) (fun vs w1 =>
+        ibind (iargs_with (ieval fuel') args w) (fun vs w1 =>
           match find_fn fns f with
           | None => IOk VVoid w1                                 (* "Undefined function": void *)
           | Some d =>
